@@ -35,7 +35,21 @@ CONSTANTS CMIDs,       \* client message ids used by the primary client "a"
           MaxSnap, MaxRestart
 
 Sessions    == {"a", "b"}
-PreludeCmid == 9       \* marker left behind by the login prelude (NICK 8, USER 9)
+(* Role of the primary session "a" (b is always a registered client): the   *)
+(* marker logic must not depend on it.  unreg = created, never sent NICK/   *)
+(* USER (marker 0); client = logged in; oper = logged in + OPER; services = *)
+(* authenticated server link (PASS services=..., SERVER ...) that speaks    *)
+(* for pseudo-clients.                                                      *)
+Roles       == {"unreg", "client", "oper", "services"}
+(* Concrete lines the replay uses for a "msg"/"quit" request of each role   *)
+(* (every kind is retried at least once per run; the model does not         *)
+(* distinguish them: none of them may influence the marker logic).          *)
+LineKinds(role) ==
+    CASE role = "unreg"    -> {"ping", "nick", "user", "quit"}
+      [] role = "client"   -> {"privmsg", "join", "ping", "nick", "quit"}
+      [] role = "oper"     -> {"privmsg", "kill", "mode", "quit"}
+      [] role = "services" -> {"snick", "sprivmsg", "sjoin", "skill", "squit"}
+PreludeCmid == 9       \* marker left behind by the role's prelude (its last line has id 9)
 OtherBase   == 20      \* "b" numbers its own messages 20, 21, ...
 NoSnap      == [idx |-> -1]
 
@@ -80,7 +94,7 @@ Request(name, s, c, t) ==
 
 (* ------------------------------- actions -------------------------------- *)
 Init ==
-    \E fresh \in BOOLEAN :
+    \E role \in Roles : LET fresh == (role = "unreg") IN
         /\ log = <<>>
         /\ live = [exists |-> [s \in Sessions |-> TRUE],
                    marker |-> [s \in Sessions |-> IF s = "a" /\ fresh THEN 0 ELSE PreludeCmid]]
@@ -88,7 +102,7 @@ Init ==
         /\ snap = NoSnap
         /\ cl = [has |-> FALSE, c |-> 0, t |-> "msg", tries |-> 0]
         /\ cnt = [orig |-> 0, other |-> 0, snap |-> 0, restart |-> 0]
-        /\ hist = << [a |-> "Init", fresh |-> fresh] >>
+        /\ hist = << [a |-> "Init", role |-> role, fresh |-> fresh] >>
 
 Room == Len(hist) <= MaxSteps
 
